@@ -256,6 +256,28 @@ pub fn c15(rep: &mut Report, rng: &mut Prng) {
             let want = if len <= 63 { len as u8 } else { 0 };
             expect!(rep, "MacsecShortLen::from_len|value", t.value() == want, "{} -> {}", len, t.value());
         }
+        // ... also through the header's own setter, which counts the two ether type octets of an
+        // unmodified payload (every usize, the largest ones included, gives an in-range value)
+        for len in (0..70usize).chain([255, 256, 65535, 65536, usize::MAX - 2, usize::MAX - 1, usize::MAX]) {
+            for unmod in [true, false] {
+                let mut h = MacsecHeader {
+                    ptype: if unmod { MacsecPType::Unmodified(EtherType(0x0800)) } else { MacsecPType::Modified },
+                    endstation_id: false,
+                    scb: false,
+                    an: MacsecAn::default(),
+                    short_len: MacsecShortLen::try_from_u8(9).unwrap(),
+                    packet_nr: 1,
+                    sci: None,
+                };
+                h.set_payload_len(len);
+                let want = match len.checked_add(if unmod { 2 } else { 0 }) {
+                    Some(c) if c <= 63 => c as u8,
+                    _ => 0,
+                };
+                let enc = h.to_bytes()[1] & 0x3f;
+                expect!(rep, "MacsecHeader::set_payload_len|short_len_in_range", h.short_len.value() == want && enc == want && (!unmod || want != 1), "payload {} (unmodified: {}) -> short_len {} (encoded {}), expected {}", len, unmod, h.short_len.value(), enc, want);
+            }
+        }
         // DSCP code points with a name (RFC 2474, 2597, 3246, 5865, 8622)
         let known: [u8; 23] = [0, 8, 16, 24, 32, 40, 48, 56, 10, 12, 14, 18, 20, 22, 26, 28, 30, 34, 36, 38, 46, 44, 1];
         for v in 0..64u8 {
@@ -379,6 +401,113 @@ pub fn c12(rep: &mut Report, rng: &mut Prng) {
         };
         let want = 8 + 8 * u1 + if with { 8 + 8 * u2 } else { 0 };
         expect!(rep, "Ipv6RoutingExtensions::header_len", re.header_len() == want, "{} want {}", re.header_len(), want);
+        // the announced bounds: every header set stays inside [MIN_LEN, MAX_LEN] of its type, a
+        // buffer of MAX_LEN octets takes every walkable chain, and the bounds are attained (sizes
+        // from the formats: generic header 8 + 8 * 255, authentication header 4 * (255 + 2))
+        {
+            let size = |rng: &mut Prng| -> usize {
+                match rng.below(4) {
+                    0 => 0,
+                    1 => 255,
+                    2 => 254,
+                    _ => rng.below(256) as usize,
+                }
+            };
+            let all = rng.chance(1, 4);
+            let extreme: Option<usize> = if rng.chance(1, 3) { Some(if rng.bool() { 255 } else { 0 }) } else { None };
+            let mut raw = |rng: &mut Prng, next: u8| -> Ipv6RawExtHeader {
+                let u = extreme.unwrap_or_else(|| size(rng));
+                Ipv6RawExtHeader::new_raw(IpNumber(next), &vec![0x5au8; 6 + 8 * u]).unwrap()
+            };
+            let mut present = |rng: &mut Prng| all || rng.bool();
+            let has_route = present(rng);
+            let has_final = has_route && present(rng);
+            let has_auth = present(rng);
+            let mut e = Ipv6Extensions {
+                hop_by_hop_options: if present(rng) { Some(raw(rng, 17)) } else { None },
+                destination_options: if present(rng) { Some(raw(rng, 17)) } else { None },
+                routing: if has_route {
+                    Some(Ipv6RoutingExtensions {
+                        routing: raw(rng, 17),
+                        final_destination_options: if has_final { Some(raw(rng, 17)) } else { None },
+                    })
+                } else {
+                    None
+                },
+                fragment: if present(rng) { Some(Ipv6FragmentHeader::new(IpNumber(17), IpFragOffset::ZERO, false, 7)) } else { None },
+                auth: if has_auth {
+                    let u = match extreme {
+                        Some(255) => 254,
+                        Some(_) => 0,
+                        None => size(rng).min(254),
+                    };
+                    Some(IpAuthHeader::new(IpNumber(17), 1, 2, &vec![0xa5u8; 4 * u]).unwrap())
+                } else {
+                    None
+                },
+            };
+            let first = e.set_next_headers(IpNumber(17));
+            let len = e.header_len();
+            let mut want = 0usize;
+            for h in [&e.hop_by_hop_options, &e.destination_options].into_iter().flatten() {
+                want += 8 + h.payload().len() - 6;
+            }
+            if let Some(r) = &e.routing {
+                want += 8 + r.routing.payload().len() - 6;
+                if let Some(f) = &r.final_destination_options {
+                    want += 8 + f.payload().len() - 6;
+                }
+                let rl = r.header_len();
+                expect!(rep, "Ipv6RoutingExtensions|announced_bounds", Ipv6RoutingExtensions::MIN_LEN <= rl && rl <= Ipv6RoutingExtensions::MAX_LEN, "header_len {} outside [MIN_LEN {}, MAX_LEN {}]", rl, Ipv6RoutingExtensions::MIN_LEN, Ipv6RoutingExtensions::MAX_LEN);
+                if extreme == Some(255) && has_final {
+                    expect!(rep, "Ipv6RoutingExtensions::MAX_LEN|attained", rl == Ipv6RoutingExtensions::MAX_LEN, "largest value has {} octets, MAX_LEN = {}", rl, Ipv6RoutingExtensions::MAX_LEN);
+                }
+                if extreme == Some(0) && !has_final {
+                    expect!(rep, "Ipv6RoutingExtensions::MIN_LEN|attained", rl == Ipv6RoutingExtensions::MIN_LEN, "smallest value has {} octets, MIN_LEN = {}", rl, Ipv6RoutingExtensions::MIN_LEN);
+                }
+            }
+            if e.fragment.is_some() {
+                want += 8;
+            }
+            if let Some(a) = &e.auth {
+                want += 12 + a.raw_icv().len();
+            }
+            expect!(rep, "Ipv6Extensions::header_len|sum_of_parts", len == want, "{} want {}", len, want);
+            expect!(rep, "Ipv6Extensions|announced_bounds", Ipv6Extensions::MIN_LEN <= len && len <= Ipv6Extensions::MAX_LEN, "header_len {} outside [MIN_LEN {}, MAX_LEN {}]", len, Ipv6Extensions::MIN_LEN, Ipv6Extensions::MAX_LEN);
+            let full = all && has_final && extreme == Some(255);
+            if full {
+                expect!(rep, "Ipv6Extensions::MAX_LEN|attained", len == Ipv6Extensions::MAX_LEN && len == 4 * 2048 + 8 + 1028, "largest chain has {} octets, MAX_LEN = {}", len, Ipv6Extensions::MAX_LEN);
+                rep.count("api.c12.largest_chain");
+            }
+            // a buffer sized with the announced maximum takes the chain
+            let mut buf = vec![0u8; Ipv6Extensions::MAX_LEN];
+            let mut cur = Cursor::new(&mut buf[..]);
+            let w = e.write(&mut cur, first);
+            let pos = cur.position() as usize;
+            expect!(rep, "Ipv6Extensions::write|fits_announced_maximum", w.is_ok() && pos == len, "{:?} after {} of {} octets into a MAX_LEN = {} buffer", w.as_ref().err().map(|e| format!("{}", e)), pos, len, Ipv6Extensions::MAX_LEN);
+            let ip = IpHeaders::Ipv6(
+                Ipv6Header {
+                    next_header: first,
+                    ..Default::default()
+                },
+                e.clone(),
+            );
+            let il = ip.header_len();
+            expect!(rep, "IpHeaders|announced_bounds", il == 40 + len && il <= IpHeaders::MAX_LEN, "header_len {} (extensions {}) above MAX_LEN {}", il, len, IpHeaders::MAX_LEN);
+            if full {
+                expect!(rep, "IpHeaders::MAX_LEN|attained", il == IpHeaders::MAX_LEN, "largest header set has {} octets, MAX_LEN = {}", il, IpHeaders::MAX_LEN);
+            }
+            let mut buf = vec![0u8; IpHeaders::MAX_LEN];
+            let mut cur = Cursor::new(&mut buf[..]);
+            let w = ip.write(&mut cur);
+            let pos = cur.position() as usize;
+            expect!(rep, "IpHeaders::write|fits_announced_maximum", w.is_ok() && pos == il, "{:?} after {} of {} octets into a MAX_LEN = {} buffer", w.as_ref().err().map(|e| format!("{}", e)), pos, il, IpHeaders::MAX_LEN);
+            // IPv4
+            let v4 = Ipv4Extensions { auth: e.auth.clone() };
+            let l4 = v4.header_len();
+            expect!(rep, "Ipv4Extensions|announced_bounds", Ipv4Extensions::MIN_LEN <= l4 && l4 <= Ipv4Extensions::MAX_LEN && (extreme != Some(255) || !has_auth || l4 == Ipv4Extensions::MAX_LEN), "header_len {} outside / not attaining [MIN_LEN {}, MAX_LEN {}]", l4, Ipv4Extensions::MIN_LEN, Ipv4Extensions::MAX_LEN);
+            rep.count("api.c12.announced_bounds_checked");
+        }
         rep.sig("api|c12");
     });
 }
@@ -516,6 +645,49 @@ pub fn c06(rep: &mut Report, rng: &mut Prng) {
         let hb = pick("Ipv6Header", rng);
         if let Ok((h, _)) = Ipv6Header::from_slice(&hb) {
             expect!(rep, "Ipv6Header::source_addr|destination_addr", h.source_addr().octets() == h.source && h.destination_addr().octets() == h.destination && h.source[..] == hb[8..24] && h.destination[..] == hb[24..40], "{:?}", h);
+        }
+        // the catch-all error types: a content fault found through the reader door lands in the same
+        // variant (path) of `err::ReadError` as the same fault found through the slice door
+        macro_rules! same_variant {
+            ($name:expr, $bytes:expr, $slice:expr, $read:expr) => {{
+                let bytes: &[u8] = $bytes;
+                let se = $slice(bytes).err().map(|e| format!("{:?}", err::ReadError::from(e)));
+                let mut cur = Cursor::new(bytes);
+                let re = $read(&mut cur).err().map(|e| format!("{:?}", err::ReadError::from(e)));
+                if let (Some(a), Some(b)) = (se, re) {
+                    let content = |t: &str| !t.starts_with("Len(") && !t.starts_with("Io(");
+                    if content(&a) && content(&b) {
+                        rep.evals += 1;
+                        if a != b {
+                            rep.violation(&format!("api|{}|converted_variant_differs", $name), format!("{}: as err::ReadError the slice door gives {} and the reader door {}", $name, a, b), bytes);
+                        } else {
+                            rep.count("api.c06.converted_errors_same_variant");
+                            rep.sig(&format!("api|c06|conv|{}", a.split(|c: char| !c.is_alphanumeric() && c != '(').next().unwrap_or("")));
+                        }
+                    }
+                }
+            }};
+        }
+        {
+            let b = pick("IpHeaders", rng);
+            same_variant!("IpHeaders", &b, |b| IpHeaders::from_slice(b).map(|_| ()), |c: &mut Cursor<&[u8]>| IpHeaders::read(c).map(|_| ()));
+            let b = pick("Ipv4Header", rng);
+            same_variant!("Ipv4Header", &b, |b| Ipv4Header::from_slice(b).map(|_| ()), |c: &mut Cursor<&[u8]>| Ipv4Header::read(c).map(|_| ()));
+            let b = pick("Ipv6Header", rng);
+            same_variant!("Ipv6Header", &b, |b| Ipv6Header::from_slice(b).map(|_| ()), |c: &mut Cursor<&[u8]>| Ipv6Header::read(c).map(|_| ()));
+            let b = pick("IpAuthHeader", rng);
+            same_variant!("IpAuthHeader", &b, |b| IpAuthHeader::from_slice(b).map(|_| ()), |c: &mut Cursor<&[u8]>| IpAuthHeader::read(c).map(|_| ()));
+            let b = pick("Ipv6Extensions", rng);
+            if !b.is_empty() {
+                let first = IpNumber(b[0]);
+                same_variant!("Ipv6Extensions", &b[1..], |b| Ipv6Extensions::from_slice(first, b).map(|_| ()), |c: &mut Cursor<&[u8]>| Ipv6Extensions::read(c, first).map(|_| ()));
+            }
+            let b = pick("LinuxSllHeader", rng);
+            same_variant!("LinuxSllHeader", &b, |b| LinuxSllHeader::from_slice(b).map(|_| ()), |c: &mut Cursor<&[u8]>| LinuxSllHeader::read(c).map(|_| ()));
+            let b = pick("MacsecHeader", rng);
+            same_variant!("MacsecHeader", &b, |b| MacsecHeader::from_slice(b).map(|_| ()), |c: &mut Cursor<&[u8]>| MacsecHeader::read(c).map(|_| ()));
+            let b = pick("TcpHeader", rng);
+            same_variant!("TcpHeader", &b, |b| TcpHeader::from_slice(b).map(|_| ()), |c: &mut Cursor<&[u8]>| TcpHeader::read(c).map(|_| ()));
         }
         rep.sig("api|c06");
     });
@@ -840,6 +1012,37 @@ pub fn c08(rep: &mut Report, rng: &mut Prng) {
             Ipv4Options::from(o4)
         };
         expect!(rep, "Ipv4Options|Eq_after_shrink", c == a && c.cmp(&a) == std::cmp::Ordering::Equal, "{:?}", c);
+        // IGMP headers, byte direction: every accepted message re-encodes to its own header bytes and
+        // decodes again to the same value (RFC 1112 / 2236 / 9776 layouts; the unknown form keeps all 8 octets)
+        {
+            let any = rng.u8();
+            let ty = *rng.pick(&[0x11u8, 0x11, 0x12, 0x16, 0x17, 0x22, 0x22, any]);
+            let len = match rng.below(4) {
+                0 => 8,
+                1 => 12,
+                2 => rng.range(8, 40) as usize,
+                _ => rng.range(12, 24) as usize,
+            };
+            let mut m = rng.bytes(len);
+            m[0] = ty;
+            if rng.chance(1, 3) && m.len() > 8 {
+                m[8] = rng.u8_corner();
+            }
+            if let Ok((h, rest)) = IgmpHeader::from_slice(&m) {
+                let enc = h.to_bytes();
+                let hl = m.len() - rest.len();
+                let again = IgmpHeader::from_slice(&enc).map(|(h2, r2)| (h2, r2.len()));
+                // octet 1 is unused / reserved in the v1 report (0x12), v2 report (0x16), leave (0x17) and
+                // v3 report (0x22) and written as 0 by the typed variants (a deliberate normalisation)
+                let mut want = m[..hl].to_vec();
+                if matches!(ty, 0x12 | 0x16 | 0x17 | 0x22) && want.len() > 1 {
+                    want[1] = 0;
+                }
+                let ok = enc[..] == want[..] && enc.len() == h.header_len() && again.as_ref().ok() == Some(&(h.clone(), 0));
+                expect!(rep, "IgmpHeader|reencoding", ok, "accepted {} -> {:?} -> re-encoded {} (header_len {}), decoded again {:?}", hex(&m[..hl.min(m.len())]), h, hex(&enc), h.header_len(), again);
+                rep.count("api.c08.igmp_round_trips");
+            }
+        }
         // NDP option header
         let h = icmpv6::NdpOptionHeader { option_type: icmpv6::NdpOptionType(rng.u8()), length_units: rng.u8_corner() };
         expect!(rep, "NdpOptionHeader::to_bytes", h.to_bytes() == [h.option_type.0, h.length_units], "{:?}", h);
